@@ -252,6 +252,7 @@ def run(ctx):
     for rep in range(ctx.n(3, 12)):   # user start values = generating parameters, scale parameters far from 1
         for cname, th in (("GeneralizedGammaDistribution", {"m": rng.uniform(0.85, 1.0), "c": rng.uniform(1.3, 2.0), "lambda_": rng.uniform(0.09, 0.12)}),
                           ("WeibullDistribution", {"alpha": rng.uniform(8, 15), "beta": rng.uniform(1.2, 2.5), "gamma": 0.5}),
+                          ("WeibullDistribution", {"alpha": rng.uniform(0.05, 0.12), "beta": rng.uniform(1.05, 1.5), "gamma": rng.uniform(0.05, 0.3)}),   # low end of the magnitude range: location within 1e-4 of the smallest observation
                           ("ExponentiatedWeibullDistribution", {"alpha": rng.uniform(0.08, 0.15), "beta": rng.uniform(1.0, 2.0), "delta": rng.uniform(1, 3)}),
                           ("LogNormalDistribution", {"mu": rng.uniform(2.0, 2.8), "sigma": rng.uniform(0.2, 0.5)})):
             cases.append({"cls": cname, "theta": th, "n": rng.choice([1000, 3000]), "seed": rng.randrange(10 ** 6), "c": rng.choice([0.5, 2.0]), "start": dict(th)})
@@ -282,6 +283,9 @@ def run(ctx):
                     off = {}
                     for p in sub:   # a prescribed value away from the generating one (location parameters shifted, positive ones scaled)
                         off[p] = th[p] + rng.choice([-1, 1]) * rng.uniform(0.3, 1.0) if p in ("mu", "gamma") and cname != "LogNormalDistribution" else th[p] * rng.choice([0.6, 0.8, 1.3, 1.7])
+                    for p in sub:   # a location fixed at exactly 0 (int or float) while the data are centred elsewhere
+                        if (cname, p) in (("VonMisesDistribution", "mu"), ("NormalDistribution", "mu"), ("LogNormalDistribution", "mu")) and rng.random() < 0.5:
+                            off[p] = rng.choice([0, 0.0])
                     if cname == "WeibullDistribution" and "gamma" in off:
                         off["gamma"] = max(0.0, min(off["gamma"], 0.5 * th["gamma"]))   # the location must stay below the data
                     fcases.append({"cls": cname, "theta": th, "fixed": list(sub), "offset": off, "n": rng.choice([100, 300, 1000]), "seed": rng.randrange(10 ** 6)})
